@@ -43,7 +43,11 @@ type histOp struct {
 	panicV   any
 }
 
-const closedBit = 1 << 31
+const (
+	closedBit = 1 << 31
+	roBit     = 1 << 30 // FinalizeReadOnly done: reads work, writes fail, file frozen
+	keyMask   = roBit - 1
+)
 
 func model(nkeys int) porcupine.Model {
 	return porcupine.Model{
@@ -53,6 +57,7 @@ func model(nkeys int) porcupine.Model {
 			in := input.(opIn)
 			out := output.(opOut)
 			closed := st&closedBit != 0
+			ro := st&roBit != 0
 			var bits uint32
 			for _, k := range in.Keys {
 				bits |= 1 << uint(k)
@@ -60,9 +65,9 @@ func model(nkeys int) porcupine.Model {
 			switch in.Kind {
 			case "put", "putmany":
 				if out.Err {
-					return closed, st
+					return closed || ro, st
 				}
-				return !closed, st | bits
+				return !closed && !ro, st | bits
 			case "has":
 				if closed {
 					return out.Err, st
@@ -80,14 +85,36 @@ func model(nkeys int) porcupine.Model {
 				if closed {
 					return out.Err, st
 				}
-				return !out.Err && out.Mask == st&^closedBit, st
+				return !out.Err && out.Mask == st&keyMask, st
 			case "roots":
 				return closed || out.BytesOK, st
 			case "finalize":
 				if closed {
 					return true, st
 				}
+				if ro {
+					return true, st | closedBit // result unspecified after FinalizeReadOnly; it closes
+				}
 				return !out.Err, st | closedBit
+			case "finalize_ro":
+				if closed || ro {
+					return true, st
+				}
+				return !out.Err, st | roBit
+			case "close":
+				if closed {
+					return true, st
+				}
+				if ro {
+					return !out.Err, st | closedBit
+				}
+				// Close before any finalization: unspecified; it either fails and changes nothing or closes
+				if out.Err {
+					return true, st
+				}
+				return true, st | closedBit
+			case "discard":
+				return true, st | closedBit
 			}
 			return false, st
 		},
@@ -169,6 +196,12 @@ func (t *storeTgt) do(ctx context.Context, op h.Op, keyIdx map[string]int) (out 
 		}
 	case "finalize":
 		out.Err = t.st.Finalize() != nil
+	case "finalize_ro":
+		out.Err = t.st.FinalizeReadOnly() != nil
+	case "close":
+		out.Err = t.st.Close() != nil
+	case "discard":
+		t.st.Discard()
 	}
 	return
 }
@@ -424,6 +457,11 @@ func RunSched(t *testing.T, tr *h.Trace, st *h.Stats) (v *h.Violation) {
 	// end-of-run: with de-duplication on, the finalized file holds each acknowledged block exactly once
 	if err := target.finalizeQuiet(); err != nil && !strings.Contains(err.Error(), "closed") && !strings.Contains(err.Error(), "finalized") {
 		return &h.Violation{Sig: "sched/finalize-failed/" + ss.Target, What: "Finalize after the concurrent phase failed: " + err.Error()}
+	}
+	for _, ho := range hist {
+		if ho.in.Kind == "discard" || ho.in.Kind == "close" {
+			return nil // the file may legitimately be left unfinalized: no end-of-run image to judge
+		}
 	}
 	img, exists := target.image()
 	var acked []h.Blk
